@@ -142,8 +142,31 @@ def fresh_var_clause(rng):
     return (head, gen.conj(goals))
 
 
+def wide_clause(rng):
+    """wide relational rules: a head with 8-20 plain variables and a body joining several wide relations, which adds
+    10-60 further variables (whatever is computed per clause over 'all variables x bound variables' gets big)"""
+    nh = rng.choice([8, 12, 16, 20])
+    hv = [V('H%d' % i) for i in range(nh)]
+    goals = []
+    k = 0
+    for g in range(rng.choice([2, 4, 6])):
+        cols = []
+        for _ in range(rng.choice([4, 8, 10])):
+            if rng.random() < 0.3:
+                cols.append(rng.choice(hv))
+            elif rng.random() < 0.1:
+                cols.append(V('_'))
+            else:
+                k += 1
+                cols.append(V('%s%d' % (rng.choice(['N', 'Tmp', 'Col', '_G']), k)))
+        goals.append(('call', C('rel%d' % g, *cols)))
+    return (C('wide', *hv), gen.conj(goals))
+
+
 def gen_text(rng):
     r = rng.random()
+    if r < 0.1:
+        return rprogram([wide_clause(rng) for _ in range(rng.choice([1, 2]))] + [fresh_var_clause(rng)]), True
     if r < 0.45:
         return rprogram([fresh_var_clause(rng) for _ in range(rng.choice([1, 2, 3]))]), True
     if r < 0.6:
